@@ -12,7 +12,7 @@ LEVEL = "exploration"
 TECHNIQUE = "model-based generation of lifecycle histories (hold-out split, reveal/mask/unmask/save/load/CLI) with the parent screen's name->id functions as reference and a prediction differential"
 RULE = (
     "parent: arity-2 screen, 4..24 rows, >=2 unobserved plates, few rows per sample/condition so that some sample or (treatment,dose) lives only in "
-    "held-out rows; split by create_plate_balanced_holdout_set_among_masked_plates with drawn fraction/seed; history of 1..8 operations on the training "
+    "held-out rows; split by create_plate_balanced_holdout_set_among_masked_plates (or create_random_holdout, or the prepare_retrospective_simulation CLI) with drawn fraction/seed; history of 1..8 operations on the training "
     "and test screens from {reveal(any unobserved ids, any order), mask, unmask, save+load, reveal_plate CLI}. After each step: name->id functions and both "
     "mappings equal the parent's, predictions of a posterior sample sized by the parent's space equal those computed with the parent's ids. Non-trivial = "
     "history has >=1 reveal/mask/unmask on a stage whose rows do not cover the parent's mapping. distinct = distinct case JSON."
@@ -48,7 +48,17 @@ def _case(draw):
     for _ in range(draw(st.integers(1, 8))):
         ops.append({"op": draw(st.sampled_from(OPS)), "stage": draw(st.sampled_from(["train", "train", "test"])), "picks": draw(st.lists(st.integers(0, 20), min_size=1, max_size=3))})
     theta = draw(S.theta_params("additive", sc["ns"], sc["nt"], D=2))
-    return {"screen": sc, "fraction": draw(st.sampled_from([0.1, 0.5, 0.5, 0.9, 1.0])), "seed": draw(st.integers(0, 2**32 - 1)), "ops": ops, "theta": theta}
+    return {
+        "screen": sc,
+        "fraction": draw(st.sampled_from([0.1, 0.5, 0.5, 0.9, 1.0])),
+        "seed": draw(st.integers(0, 2**32 - 1)),
+        "ops": ops,
+        "theta": theta,
+        # 1 in 5: the prepared simulation comes from the prepare_retrospective_simulation CLI (its internal parent is not
+        # observable, so the reference is the pair (training, test) it wrote: both must share one encoding)
+        "via_cli": draw(st.integers(0, 4)) == 0,
+        "random_split": draw(st.integers(0, 3)) == 0,
+    }
 
 
 def strategy(tier):
@@ -86,7 +96,42 @@ def check_case(case):
     th["V0"] = rng.normal(size=n_t).tolist()
     theta = S.build_theta(th)
 
-    train, test = create_plate_balanced_holdout_set_among_masked_plates(parent, case["fraction"], np.random.default_rng(case["seed"]))
+    paths = []
+    if case.get("via_cli"):
+        from batchie.retrospective import unmask_screen
+
+        src, a, b = tmp.fresh("src.h5"), tmp.fresh("train.h5"), tmp.fresh("test.h5")
+        paths += [src, a, b]
+        unmask_screen(parent).save_h5(src)
+        try:
+            run_cli("prepare_retrospective_simulation", ["--data", src, "--training-output", a, "--test-output", b, "--plate-generator", "PlatePermutationPlateGenerator", "--holdout-fraction", case["fraction"], "--seed", case["seed"] % (2**31)])
+            train, test = Screen.load_h5(a), Screen.load_h5(b)
+        except (ValueError, TypeError):
+            tmp.cleanup(*paths)
+            from vf.engine import Skip
+
+            raise Skip()  # degenerate preparation (no unobserved plate left / empty half): outside the quantifier
+        tmp.cleanup(*paths)
+        # the CLI's internal parent is not observable: the two halves must agree with each other and carry one mapping
+        require(S.mapping_equal(train.treatment_mapping, test.treatment_mapping) and S.mapping_equal(train.sample_mapping, test.sample_mapping), "cli_prepare.halves_share_mappings", "training and test screen written by prepare_retrospective_simulation carry different mappings")
+        p_tm, p_sm = train.treatment_mapping, train.sample_mapping
+        pf_s, pf_t = {}, {}
+        for half in (train, test):
+            fs, ft = _functions(half)
+            for k, v in list(fs.items()) + list(ft.items()):
+                d = pf_s if isinstance(k, str) else pf_t
+                require(d.setdefault(k, v) == v, "cli_prepare.halves_share_ids", lambda: "%r has id %r in one half and %r in the other" % (k, d[k], v))
+        space = ExperimentSpace.from_screen(train)
+        n_t, n_s = space.n_unique_treatments, space.n_unique_samples
+        rng2 = np.random.default_rng(case["seed"] % 1000)
+        th = dict(case["theta"], W=rng2.normal(size=(n_s, 2)).tolist(), W0=rng2.normal(size=n_s).tolist(), V2=rng2.normal(size=(n_t, 2)).tolist(), V1=rng2.normal(size=(n_t, 2)).tolist(), V0=rng2.normal(size=n_t).tolist())
+        theta = S.build_theta(th)
+    elif case.get("random_split"):
+        from batchie.retrospective import create_random_holdout
+
+        train, test = create_random_holdout(parent, case["fraction"], np.random.default_rng(case["seed"]))
+    else:
+        train, test = create_plate_balanced_holdout_set_among_masked_plates(parent, case["fraction"], np.random.default_rng(case["seed"]))
     stages = {"train": train, "test": test}
     uncovered = {"train": False, "test": False}
 
@@ -165,7 +210,7 @@ def check_case(case):
                 nontrivial = True
     finally:
         tmp.cleanup(*paths)
-    labels = ["fraction=%s" % case["fraction"]]
+    labels = ["fraction=%s" % case["fraction"], "prepared-by-cli" if case.get("via_cli") else "random-holdout" if case.get("random_split") else "plate-balanced-holdout"]
     if uncovered["train"]:
         labels.append("train-rows-do-not-cover-mapping")
     if uncovered["test"]:
